@@ -311,7 +311,7 @@ type c08DCase struct {
 
 func genC08D(t *rapid.T) c08DCase {
 	return c08DCase{Proc: pick(t, "proc", "mkdir", "create", "remove", "rmdir", "rename", "symlink", "write", "setattr"), ShortTimeout: rapid.Bool().Draw(t, "short"),
-		Via: pick(t, "via", "policy", "export"), WaitMs: pick(t, "wait", 0, 5, 60, 120)}
+		Via: pick(t, "via", "policy", "export"), WaitMs: pick(t, "wait", 0, 0, 5, 5, 60, 60, 120, 120, 5600)} // (5.6 s: beyond any "give the drain five seconds" patience)
 }
 
 func runC08D(tb stat.TB, c c08DCase) {
